@@ -111,6 +111,8 @@ pub fn record(args: &[String]) {
 			}
 			let mut last_scalar = match &first { In::S(v) => *v, _ => 0.0 };
 			// (2) both continue with the same stream (which starts with its first element)
+			// position counters of the reversal detectors wrap their numbering every PeriodType::MAX inputs: run past it
+			let steps = if subject.contains("Reversal") { steps.max(600) } else { steps };
 			for i in 0..steps {
 				let mut x = if i == 0 { first.clone() } else { g.input(kind) };
 				if ratio {
